@@ -29,11 +29,18 @@ prefix, following NextMarker / NextContinuationToken from the start yields pages
 items whose Contents and CommonPrefixes, concatenated, are exactly the files and directories of
 the top directory under the prefix, in order, each once; the last page is untruncated; nothing is deleted.
 The hypotheses `Flat` name exactly the excluded inputs (= the classes of the findings above).
-The recursive case (delimiter "") is covered by the correspondence check only.
+
+The recursive case (delimiter "", prefix "") is proved for directory trees of depth ≤ 2
+(`pages_partition_matches_recursive_partial`, section at the end of this file): hypothesis `Tree2` = no `.uploads`
+directory in the top directory (class skipped-entry-counted-in-limit-window) and no key with three or more
+segments (class nested-marker-drops-sub-count: only markers with two "/" lose the sub-count).  Deeper trees and
+prefixes with a directory part stay covered by the correspondence check only.
 -/
 import SwV.Model.C27
 import SwV.Spec.C27
 import SwV.Lemmas.C27
+import SwV.Lemmas.C27b
+import SwV.Lemmas.C27c
 import SwV.Gen.C27
 namespace SwV.Props.C27
 open SwV.Model.C19 (Bytes ltB isPrefix)
@@ -331,5 +338,78 @@ theorem bridge_pins :
     SwV.Gen.C27.src_doListFilerEntries = "4147ac9cc9bf10fd" ∧ SwV.Gen.C27.src_listFilerEntries = "5dbe6000e5cbfaa1" ∧
     SwV.Gen.C27.src_ListObjectsV2Handler = "2efe800a81b9f715" ∧ SwV.Gen.C27.src_ListObjectsV1Handler = "4e193cccafe68007" ∧
     SwV.Gen.C27.src_isDirectoryAllEmpty = "fda41e94bab77240" := by decide
+
+/-! ## the recursive listing (delimiter "", prefix "") on trees of depth ≤ 2
+
+`doList` descends into every directory of the listed directory with the budget that is left, skips `.uploads`,
+counts what the sub-listing emitted and builds the next marker `dir/name`; a continuation from `dir/name` first
+lists the rest of `dir` and then the top directory after `dir` with the budget reduced by the sub-count.
+Lemmas/C27b.lean gives the closed form of the receive loop with descents (`recv_pairs`), of a sub-listing
+(`sub_listing`), of a page from a marker without "/" (`page_top`) and from a marker `dir/name` (`page_dir`), and
+follows the markers with a cursor (`Cursor`, `cursor_drop`).
+
+FULL STATEMENT for arbitrary trees is FALSE: `nested_marker_overfills_and_loses` (three segments: the marker branch
+drops the sub-count, page too large, key lost) and `not_complete_with_uploads_dir` above.  The hypothesis `Tree2 ks`
+(decidable) excludes exactly these two classes; its remaining clauses are structural facts of the model's directory
+view (`children` sorted, names non-empty and free of "/", directories non-empty). -/
+
+/-- MAIN THEOREM (partial), delimiter "" and prefix "": on every bucket whose tree has depth ≤ 2 and whose top directory
+    holds no `.uploads` directory, for every max-keys ≥ 1, following NextMarker / NextContinuationToken from the start
+    yields pages of ≤ max-keys keys whose concatenation is the depth-first key stream of the tree (`allKeys`: every
+    top-level file, and below every directory its files, in name order) — each key once, in order —, no CommonPrefixes,
+    the last page untruncated, nothing deleted. -/
+theorem pages_partition_matches_recursive_partial (ks : List (List Bytes)) (h : Tree2 ks)
+    (maxKeys : Nat) (hmk : 0 < maxKeys) (fuel : Nat) (hfuel : (allKeys ks).length < fuel) :
+    ∃ pages, walk [] maxKeys false true fuel ks [] = (pages, ks) ∧ RecExact maxKeys (allKeys ks) pages :=
+  walk_rec ks h maxKeys hmk fuel [] (allKeys ks) Cursor.start hfuel
+
+/-- the same from any continuation point: a marker that is the name of a top-level file or `dir/name` of a listed
+    key resumes exactly after that key -/
+theorem resume_after_marker_recursive_partial (ks : List (List Bytes)) (h : Tree2 ks) (maxKeys : Nat) (hmk : 0 < maxKeys)
+    (m : Bytes) (Z : List Bytes) (hc : Cursor ks m Z) (fuel : Nat) (hfuel : Z.length < fuel) :
+    ∃ pages, walk [] maxKeys false true fuel ks m = (pages, ks) ∧ RecExact maxKeys Z pages :=
+  walk_rec ks h maxKeys hmk fuel m Z hc hfuel
+
+/-- one page from a marker `dir/name` (closed form): the rest of `dir` after `name`, then the top directory after `dir` -/
+theorem page_from_dir_marker_partial (ks : List (List Bytes)) (h : Tree2 ks) (maxKeys : Nat) (hmk : 0 < maxKeys) (d : Ent)
+    (hd : d ∈ children ks []) (hexp : d.expired = true) (x : Bytes) (hx : cutFirstSlash x = none) :
+    pageOf (listFiler ks [] maxKeys (d.key ++ [slash] ++ x) false) =
+      pageOfStream maxKeys ((((children ks [d.key]).filter fun c => ltB x c.key).map fun c => d.key ++ [slash] ++ c.key) ++
+        streamOf ks ((children ks []).filter fun e => ltB d.key e.key)) :=
+  (page_dir ks h maxKeys hmk d hd hexp x hx).1
+
+/-- … and that stream covers the bucket: in a bucket that never holds a key and a key below it (the filer cannot
+    represent that), every one- or two-segment key is returned on some page of the walk -/
+theorem every_key_listed_recursive_partial (ks : List (List Bytes)) (h : Tree2 ks)
+    (hvalid0 : ∀ k ∈ ks, ∀ k' ∈ ks, k.length = 1 → k.head? = k'.head? → k'.length = 1)
+    (maxKeys : Nat) (hmk : 0 < maxKeys) (fuel : Nat) (hfuel : (allKeys ks).length < fuel) :
+    ∀ k ∈ ks, (∃ s, k = [s]) ∨ (∃ d n, k = [d, n]) →
+      joinSlash k ∈ (walk [] maxKeys false true fuel ks []).1.flatMap (·.keys) := by
+  have hvalid : ∀ s : Bytes, [s] ∈ ks → ∀ rest, (s :: rest) ∈ ks → rest = [] := by
+    intro s hs rest hr
+    have := hvalid0 [s] hs (s :: rest) hr rfl rfl
+    simpa using this
+  obtain ⟨pages, hw, hex⟩ := pages_partition_matches_recursive_partial ks h maxKeys hmk fuel hfuel
+  intro k hk hshape
+  rw [hw]
+  simp only [hex.keys]
+  rcases hshape with ⟨s, rfl⟩ | ⟨d, n, rfl⟩
+  · exact (allKeys_complete ks hvalid).1 s hk
+  · exact (allKeys_complete ks hvalid).2 d n hk
+
+example : ∀ k ∈ ksClean, ∀ k' ∈ ksClean, k.length = 1 → k.head? = k'.head? → k'.length = 1 := by decide
+
+/-- the hypotheses are satisfiable: the DESIGN name set (a directory `a` next to `a.b` and `ab`) -/
+example : Tree2 ksClean := by decide
+
+example : allKeys ksClean = [s "a/b", s "a/c", s "a.b", s "ab/c", s "b"] := by decide
+
+/-- the model run on that bucket: max-keys 2, three pages, markers `a/c` (inside a directory) and `ab/c` -/
+example : (walk [] 2 false true 7 ksClean []).1 =
+    [⟨true, s "a/c", [s "a/b", s "a/c"], []⟩, ⟨true, s "ab/c", [s "a.b", s "ab/c"], []⟩, ⟨false, [], [s "b"], []⟩] := by
+  decide
+
+/-- `Tree2` excludes the two refuting buckets (and only by the clauses named after the findings) -/
+example : ¬ Tree2 ksUploads ∧ ¬ Tree2 ksDeep := by decide
 
 end SwV.Props.C27
